@@ -23,8 +23,8 @@ HEADER = "From Attrs Require Import Base C03.Common C03.Model C03.Corr."
 CASE_TYPE = "case"
 CHECK = "check_case"
 MODEL = "model_of"
-RULE = ("(1) field level, exhaustive: attr.ib over cmp/eq/order in {None,True,False,key0,key1}^3 and "
-        "attrs.field over eq/order in the same 5 values: the resolved (eq, eq_key, order, order_key) or "
+RULE = ("(1) field level, exhaustive: attr.ib over cmp/eq/order in {None,True,False,key0,key1,falsy callable "
+        "object 100,101}^3 and attrs.field over eq/order in the same 7 values: the resolved (eq, eq_key, order, order_key) or "
         "ValueError; (2) single classes with 1..3 fields, every combination of a palette of 9 field "
         "settings (quick: all for k<=2, a seeded sample for k=3), api/slots/frozen/class eq-order-cmp "
         "drawn at random: ALL ordered pairs of instances over {0,1,2}^k or {-1,0,1}^k, each through "
@@ -39,7 +39,11 @@ RULE = ("(1) field level, exhaustive: attr.ib over cmp/eq/order in {None,True,Fa
         "object and float-NaN operands; (5) classes with 4..5 fields on sampled pairs; (6) hashable classes "
         "(unsafe_hash, mostly cache_hash, frozen or mutable, eq=False fields with hash=True): histories compare / "
         "hash both / compare / assign a field / compare; (7) eq key functions returning a set, a dict, an "
-        "eq-only unhashable object, on classes with and without generated __hash__, all pairs over {0,1,2}^k.  distinct = distinct "
+        "eq-only unhashable object, on classes with and without generated __hash__, all pairs over {0,1,2}^k; "
+        "(8) None, '' and 0 among the field values (all ordered pairs over {None,'',0,1,2} resp. {None,0,1,''}^2) "
+        "with key functions that accept them and map falsy values onto the image of another value or return "
+        "None, and falsy callable OBJECTS (empty callable dict subclass, __bool__ False, __len__ 0) as "
+        "eq=/cmp=/order= keys.  distinct = distinct "
         "case inputs; non-trivial = at least one eq-participating field and one probe")
 EXTRA_TRUSTED = [
     "CPython's binary-operator dispatch (do_richcompare) as modelled by Common.dispatch; int == int, "
@@ -158,12 +162,20 @@ class World:
             return v[1]
         if v[0] in "sb":
             return self.scr(v[1], v[0])
+        if v[0] == "o":
+            return None
+        if v[0] == "e":
+            return ""
         return self.nan(v[1])
 
     def enc_back(self, o):
         """Python object seen in a log -> JSON value."""
         if isinstance(o, (Scr, ScrInt)):
             return ["s", o.oid]
+        if o is None:
+            return ["o"]
+        if isinstance(o, str) and o == "":
+            return ["e"]
         if isinstance(o, bool):
             return ["i", 424242]
         if isinstance(o, int):
@@ -259,7 +271,9 @@ def _set_key(v):
 
 
 INTFN = {0: lambda v: -v, 1: abs, 2: lambda v: v % 2,
-         4: _set_key, 5: lambda v: {0: v}, 6: EqOnly}
+         4: _set_key, 5: lambda v: {0: v}, 6: EqOnly,
+         7: lambda v: None if v == 0 else v,        # a key whose RESULT can be None
+         8: lambda v: 1 if v == 0 else v}           # falsy values land on the image of 1
 
 
 def _mk_key(k):
@@ -269,12 +283,52 @@ def _mk_key(k):
             return w.scr(100 * (k + 1) + v.oid, v.kind)
         if isinstance(v, float):
             return w.nan(100 * (k + 1) + w.nan_ids.get(id(v), 99))
+        if v is None or (isinstance(v, str) and v == ""):
+            # every key accepts the falsy non-numbers None and '' and treats them like 0 (`v or 0`),
+            # except key 7 which sends them to 1
+            if k == 7:
+                return 1
+            v = 0
         return INTFN.get(k, lambda z: min(z, 1))(v)
     key.__name__ = "key%d" % k
     return key
 
 
-KEYFN = {k: _mk_key(k) for k in range(7)}
+class FalsyDictKey(dict):
+    """callable dict subclass, empty: bool() is False"""
+
+    def __call__(self, v):
+        return self.fn(v)
+
+
+class FalsyBoolKey:
+    def __bool__(self):
+        return False
+
+    def __call__(self, v):
+        return self.fn(v)
+
+
+class FalsyLenKey:
+    def __len__(self):
+        return 0
+
+    def __call__(self, v):
+        return self.fn(v)
+
+
+def _falsy_key(cls, k):
+    o = cls()
+    o.fn = _mk_key(k)      # same treatment of scripted / NaN / None values as every other key
+    assert not o and callable(o)
+    return o
+
+
+INTFN.update({100: lambda v: v % 2, 102: abs})     # 101: the default min(v, 1)
+
+KEYFN = {k: _mk_key(k) for k in range(9)}
+KEYFN.update({100: _falsy_key(FalsyDictKey, 100), 101: _falsy_key(FalsyBoolKey, 101),
+              102: _falsy_key(FalsyLenKey, 102)})                # falsy callable objects
 KEYID = {id(f): k for k, f in KEYFN.items()}
 
 # --------------------------------------------------------------------------------------
@@ -284,10 +338,13 @@ KEYID = {id(f): k for k, f in KEYFN.items()}
 
 
 def py_setting(s):
-    return {"N": None, "T": True, "F": False}[s] if s[0] != "K" else KEYFN[int(s[1:])]
+    # "K<n>": key function n; "Q<n>": falsy callable object n
+    return {"N": None, "T": True, "F": False}[s] if s[0] not in "KQ" else KEYFN[int(s[1:])]
 
 
 def coq_setting(s):
+    if s[0] == "Q":
+        return "(SKf %s)" % s[1:]
     return {"N": "SN", "T": "ST", "F": "SF"}[s] if s[0] != "K" else "(SK %s)" % s[1:]
 
 
@@ -309,6 +366,10 @@ def coq_layer(spec, fields):
 
 
 def coq_val(v):
+    if v[0] == "o":
+        return "Vo"
+    if v[0] == "e":
+        return "Ve"
     if v[0] == "i":
         return "(Vi %d)" % v[1] if v[1] >= 0 else "(Vi (%d))" % v[1]
     return "(V%s %d)" % ("s" if v[0] == "b" else v[0], v[1])
@@ -664,6 +725,17 @@ def run_chain(inp):
             c, dom = it[1], it[2]
             i = n - 1 - c
             k = len(fieldlists[i])
+            if it[0] == "allv":
+                vecs = [list(v) for v in itertools.product(dom, repeat=k)]
+                codes = []
+                for xv in vecs:
+                    x = instantiate(classes[i], fieldlists[i], xv, world)
+                    for yv in vecs:
+                        y = instantiate(classes[i], fieldlists[i], yv, world)
+                        q = eq_quad(x, y, world)
+                        codes.append(sum(_digit(r[0]) * 4 ** j for j, r in enumerate(q)))
+                outs.append(["all", codes])
+                continue
             vecs = [] if it[0] in ("pair", "hist") else [[["i", z] for z in v] for v in itertools.product(dom, repeat=k)]
             codes = []
             if it[0] == "hist":
@@ -733,6 +805,8 @@ def chain_case(inp):
             items.append("(IAll %d %s)" % (it[1], zl(it[2])))
         elif it[0] == "row":
             items.append("(IRow %d %s %s)" % (it[1], zl(it[2]), zl(it[3])))
+        elif it[0] == "allv":
+            items.append("(IAllV %d %s)" % (it[1], lst(coq_val(v) for v in it[2])))
         elif it[0] == "hist":
             mut = "None" if it[4] is None else "(Some (%d, (%d)%%Z))" % (it[4][0], it[4][1])
             items.append("(IHist %d %s %s %s)" % (it[1], zl(it[2]), zl(it[3]), mut))
@@ -1086,7 +1160,32 @@ def keyres_cases(rng, tier):
     return out
 
 
-FIELD_VALUES = ["N", "T", "F", "K0", "K1"]
+def falsy_cases(rng, tier):
+    """None, '' and 0 among the field values with key functions that accept them: keys mapping a falsy
+    value onto the image of another value (0..3: like 0; 8: onto 1), a key whose result is None (7);
+    and falsy CALLABLE OBJECTS given as eq= / cmp= / order= (ignored by the code: `eq_key or eq`)."""
+    out = []
+    pool = [("N", "N", "N"), ("N", "K0", "N"), ("N", "K1", "F"), ("N", "K2", "N"), ("N", "K3", "N"),
+            ("N", "K7", "N"), ("N", "K8", "N"), ("K7", "N", "N"), ("K8", "N", "N"), ("N", "K7", "K8"),
+            ("N", "Q100", "N"), ("N", "Q101", "N"), ("N", "Q102", "F"), ("Q100", "N", "N"),
+            ("N", "N", "Q101"), ("N", "K8", "Q102"), ("N", "F", "N")]
+    hashcfgs = [{}, {}, {"frozen": True}, {"unsafe_hash": True}]
+    dom1 = [["o"], ["e"], ["i", 0], ["i", 1], ["i", 2]]
+    dom2 = [["o"], ["i", 0], ["i", 1], ["e"]]
+    for t in pool:
+        layer = rand_layer(rng, [[NAMES[0]] + list(t)])
+        layer.update(rng.choice(hashcfgs))
+        out.append({"chain": [layer], "script": {}, "items": [["allv", 0, dom1]]})
+    pairs = list(itertools.product(pool, repeat=2))
+    rng.shuffle(pairs)
+    for t1, t2 in pairs[:(25 if tier == "quick" else len(pairs))]:
+        layer = rand_layer(rng, [[NAMES[0]] + list(t1), [NAMES[1]] + list(t2)])
+        layer.update(rng.choice(hashcfgs))
+        out.append({"chain": [layer], "script": {}, "items": [["allv", 0, dom2]]})
+    return out
+
+
+FIELD_VALUES = ["N", "T", "F", "K0", "K1", "Q100", "Q101"]
 
 
 def generate(tier, seed):
@@ -1100,7 +1199,7 @@ def generate(tier, seed):
     for e, o in itertools.product(FIELD_VALUES, repeat=2):
         cases.append(field_case({"api": "d", "cmp": "N", "eq": e, "order": o}))
     for inp in (sweep_cases(rng, tier) + scripted_cases(rng, tier) + chain_cases(rng, tier) + wide_cases(rng, tier)
-                + hash_cases(rng, tier) + keyres_cases(rng, tier)):
+                + hash_cases(rng, tier) + keyres_cases(rng, tier) + falsy_cases(rng, tier)):
         cases.append(chain_case(inp))
     return cases
 
